@@ -70,6 +70,12 @@ def problem(rng, hermitian, cplx=False, dmin=2, dmax=14, two_legs=None):
             return x.to_numpy(legs=lg).reshape(D)
         # basis of the sector: positions where `one` is non-zero
         mask = dense(one) != 0
+        if rng.random() < 0.3 and len(v.get_blocks_charge()) >= 2:
+            # a start vector that lacks blocks the map populates: v.size underestimates the dimension of the space
+            ts = list(v.get_blocks_charge())
+            for t_ in rng.sample(ts, rng.randint(1, len(ts) - 1)):
+                v[t_] = 0 * v[t_]
+            v = v.remove_zero_blocks()
         return dict(sym=sym, cfg=cfg, legs=legs, n=n, d=d, O=O, f=f, v=v, dense=dense, Om=Om, mask=mask, k=k, D=D, dtype=dt)
     raise RuntimeError('no problem found')
 
@@ -133,7 +139,7 @@ def traced_dims(fname, vecs, call):
         if frame.f_code is not fn.__code__:
             return None
         if event == 'line' and frame.f_lineno == ln_cut:
-            rec['happy'] = bool(frame.f_locals['happy']); rec['len0'] = len(frame.f_locals[vecs])
+            rec['happy'] = bool(frame.f_locals['happy']); rec['len0'] = len(frame.f_locals[vecs]); rec['supp'] = max(int(x.size) for x in frame.f_locals[vecs])
         if event == 'return':
             loc = frame.f_locals
             if 'T' in loc and 'm' in loc:
@@ -365,7 +371,7 @@ def eigs_cases(ctx, n_cases, jobs, src, seeds=None):
             if abs(np.real(vals[0]) - want) > 1e-7 * max(1.0, abs(want)) and not (which == 'LM' and abs(abs(np.real(vals[0])) - abs(want)) < 1e-7 * max(1, abs(want))):
                 ctx.violation('eigs(which=%s) with a complete space returns %r, the extremal eigenvalue is %r' % (which, vals[0], want), desc)
         if 'm' in rec and 'happy' in rec:
-            jobs.append((OP_DIMS, [int(rec['happy']), rec['len0']]))
+            jobs.append((OP_DIMS, [int(rec['happy']), rec['len0'], rec['supp']]))
             src.append(('dims', desc, dict(which='eigs', rec=rec)))
 
 
@@ -395,7 +401,7 @@ def lin_cases(ctx, n_cases, jobs, src, seeds=None):
             ctx.violation('lin_solver raised %s: %s' % (type(e).__name__, str(e)[:100]), desc)
             continue
         if 'm' in rec and 'happy' in rec:
-            jobs.append((OP_DIMS, [int(rec['happy']), rec['len0']]))
+            jobs.append((OP_DIMS, [int(rec['happy']), rec['len0'], rec['supp']]))
             src.append(('dims', desc, dict(which='lin_solver', rec=rec)))
             ctx.count('lin_solver:happy' if rec['happy'] else 'lin_solver:no-breakdown')
         xd, bd = dense(x), dense(b)
